@@ -259,3 +259,18 @@ T('pkgL_t_resources_zipped_routes_starred', ['C20'],
   (FL, _RESOURCES, "    values = (traceback_string, parsed_error, monitored_files, non_site_files)\n    resources = dict(zip(_RESOURCE_NAMES, values))\n"),
   (FL, _ROUTES, "    first, last = [(pattern, get_flaw_info, 'flaw_tmpl') for pattern in ('/', '/<_ignored*>')]\n"
                 "    middle = [('/clastic_assets/', StaticApplication(_ASSET_PATH))]\n    routes = [first, *middle, last]\n"))
+T('pkgL_t_function_reference_to_runner', ['C20'],
+  (FL, _TRY, "    parsed_error = _attempt(_parse_to_dict, traceback_string, default={})\n"),
+  (FL, "def get_flaw_info(tb_str,", "def _parse_to_dict(text):\n    return _ParsedTB.from_string(text).to_dict()\n\n\n" + _ATTEMPT_ARGS))
+B('pkgL_b_function_reference_runner_leaks', ['C20'], 'R20.b',
+  (FL, _TRY, "    parsed_error = _attempt(_parse_to_dict, traceback_string, default={})\n"),
+  (FL, "def get_flaw_info(tb_str,", "def _parse_to_dict(text):\n    return _ParsedTB.from_string(text).to_dict()\n\n\n" + _ATTEMPT_ARGS.replace('except BaseException:', 'except ValueError:')))
+T('pkgL_t_sort_guard_as_and_chain', ['C20'],
+  (FL, "    if monitored_files:\n        monitored_files.sort(key=lambda x: len(x))\n", "    monitored_files and monitored_files.sort(key=len)\n"))
+T('pkgL_t_routes_zipped_with_targets', ['C20'],
+  (FL, "_ASSET_PATH = os.path.join(_CUR_PATH, '_clastic_assets')\n", "_ASSET_PATH = os.path.join(_CUR_PATH, '_clastic_assets')\n_ROUTE_PATTERNS = ('/', '/clastic_assets/', '/<_ignored*>')\n"),
+  (FL, _ROUTES, "    page = (get_flaw_info, 'flaw_tmpl')\n    targets = (page, (StaticApplication(_ASSET_PATH),), page)\n"
+                "    routes = [(pattern, *target) for pattern, target in zip(_ROUTE_PATTERNS, targets)]\n"))
+T('pkgL_t_routes_sliced_pages', ['C20'],
+  (FL, _ROUTES, "    pages = [(pattern, get_flaw_info, 'flaw_tmpl') for pattern in ('/', '/<_ignored*>')]\n"
+                "    routes = [*pages[:1], ('/clastic_assets/', StaticApplication(_ASSET_PATH)), *pages[1:]]\n"))
